@@ -988,6 +988,182 @@ def suite_positions(exe, tier, seed):
             "bound": "12 placements of one statement", "samples": samples, "violations": viol}
 
 
+def sigassign_program(rng, n_stmts):
+    """one template built from a menu of statement shapes, one statement per line; returns (source, expected) where
+    expected maps a line number to (number of `<--` findings expected there, set of constraint lines or None)"""
+    lines = ["pragma circom 2.1.0;", "pragma custom_templates;",
+             "template Sub() { signal input a; signal input b; signal output c; c <== a * b; }",
+             "function fn(x) { var y = x; y = y + 1; return y; }"]
+    body, decl = [], []
+    expected = {}          # line -> [count, related-lines-or-None]
+    uid = [0]
+    def fresh(p):
+        uid[0] += 1
+        return f"{p}{uid[0]}"
+    pending = []           # (body index of the `<--` line, [body indices of its constraint lines] or None)
+    def emit(text):
+        body.append(text)
+        return len(body) - 1
+    for _ in range(n_stmts):
+        k = rng.randrange(13)
+        if k == 0:      # scalar, not quadratic, 0..3 constraints mentioning it (and a decoy with a longer name)
+            sname = fresh("s")
+            decl.append(f"signal {sname}; signal {sname}x;")
+            a = emit(f"  {sname} <-- in \\ {rng.randrange(2, 9)};")
+            cons = []
+            for form in rng.sample(["  %s === in;", "  %s * 2 === in2;", "  in2 === %s + in;"], rng.randrange(0, 4)):
+                cons.append(emit(form % sname))
+            emit(f"  {sname}x <== in;")
+            emit(f"  {sname}x * 3 === in2;")
+            pending.append((a, 1, cons))
+        elif k == 1:    # scalar, quadratic right-hand side
+            sname = fresh("q")
+            decl.append(f"signal {sname};")
+            pending.append((emit(f"  {sname} <-- in * in2 + {rng.randrange(9)};"), 1, None))
+        elif k == 2:    # reversed arrow
+            sname = fresh("r")
+            decl.append(f"signal {sname};")
+            pending.append((emit(f"  in \\ {rng.randrange(2, 9)} --> {sname};"), 1, None))
+        elif k == 3:    # array element in a loop
+            sname = fresh("a")
+            decl.append(f"signal {sname}[4];")
+            emit("  for (var i = 0; i < 4; i++) {")
+            pending.append((emit(f"    {sname}[i] <-- in \\ (i + 2);"), 1, None))
+            emit("  }")
+        elif k == 4:    # element of a matrix under a branch in nested loops; the other branch constrains
+            sname = fresh("m")
+            decl.append(f"signal {sname}[2][2];")
+            emit("  for (var i = 0; i < 2; i++) { for (var j = 0; j < 2; j++) {")
+            emit("    if (i == j) {")
+            pending.append((emit(f"      {sname}[i][j] <-- in \\ 2;"), 1, None))
+            emit("    } else {")
+            emit(f"      {sname}[i][j] <== in;")
+            emit("    }")
+            emit("  } }")
+        elif k == 5:    # component input
+            cname = fresh("c")
+            decl.append(f"component {cname} = Sub();")
+            pending.append((emit(f"  {cname}.a <-- in;"), 1, None))
+            emit(f"  {cname}.b <== in2;")
+        elif k == 6:    # input of a component array
+            cname = fresh("cs")
+            decl.append(f"component {cname}[2];")
+            emit(f"  for (var i = 0; i < 2; i++) {{ {cname}[i] = Sub(); }}")
+            emit("  for (var i = 0; i < 2; i++) {")
+            pending.append((emit(f"    {cname}[i].a <-- in;"), 1, None))
+            emit(f"    {cname}[i].b <== in2;")
+            emit("  }")
+        elif k == 7:    # declaration with initialisation
+            sname = fresh("d")
+            a = emit(f"  signal {sname} <-- in \\ 3;")
+            c = emit(f"  {sname} === in;")
+            pending.append((a, 1, [c]))
+        elif k == 8:    # two statements on one line
+            s1, s2 = fresh("t"), fresh("t")
+            decl.append(f"signal {s1}; signal {s2};")
+            pending.append((emit(f"  {s1} <-- in \\ 2; {s2} <-- in \\ 2;"), 2, None))
+        elif k == 9:    # inside a while loop
+            sname = fresh("w")
+            decl.append(f"signal {sname}[3];")
+            vn = fresh("k")
+            emit(f"  var {vn} = 0;")
+            emit(f"  while ({vn} < 3) {{")
+            pending.append((emit(f"    {sname}[{vn}] <-- in \\ 5;"), 1, None))
+            emit(f"    {vn}++;")
+            emit("  }")
+        elif k == 10:   # both branches of a conditional
+            sname = fresh("b")
+            decl.append(f"signal {sname};")
+            emit("  if (n > 2) {")
+            a1 = emit(f"    {sname} <-- in \\ 2;")
+            emit("  } else {")
+            a2 = emit(f"    {sname} <-- in \\ 3;")
+            emit("  }")
+            c = emit(f"  {sname} * 2 === in;")
+            pending.append((a1, 1, [c]))
+            pending.append((a2, 1, [c]))
+        elif k == 11:   # statements that are not signal assignments
+            sname = fresh("e")
+            vn = fresh("v")
+            decl.append(f"signal {sname};")
+            emit(f"  var {vn} = in2 * 0 + {rng.randrange(5)};")
+            emit(f"  {vn} = {vn} + fn(2);")
+            emit(f"  {sname} <== in + {vn};")
+            emit(f"  {sname} === in + {vn};")
+        else:           # anonymous component with a named `<--` input: one finding, at the call
+            sname = fresh("u")
+            decl.append(f"signal {sname};")
+            pending.append((emit(f"  {sname} <== Sub()(a <-- in, b <== in2);"), 1, None))
+    head = lines + ["template custom Gate() { signal input a; signal output b;", "  b <-- a * a * a;", "}",
+                    "template T(n) {", "  signal input in; signal input in2; signal output out;"] + ["  " + d for d in decl]
+    off = len(head) + 1
+    src = "\n".join(head + body + ["  out <== in;", "}", "component main = T(3);", ""])
+    for (a, cnt, cons) in pending:
+        expected[a + off] = [cnt, None if cons is None else sorted(c + off for c in cons)]
+    return src, expected
+
+
+def suite_sigassign(exe, tier, seed):
+    """C08 (BOUNDED): findings about `<--` / `-->` correspond one to one to the statements, and the related locations of a
+    `signal assignment` finding are the constraints that mention the signal"""
+    import random
+    viol, samples = [], []
+    evals = nontrivial = 0
+    n_prog = 14 if tier == "quick" else 400
+    d = tempfile.mkdtemp(prefix="vx-e2e-")
+    def add(ob, inp, what):
+        if len(viol) < 20:
+            viol.append({"unit": "e2e", "fn": "find_signal_assignments (whole pipeline)", "obligation": f"e2e|sigassign|{ob}", "props": ["C08"],
+                         "input": inp, "what": what, "replay": "python3 run/e2e.py sigassign quick 0"})
+    try:
+        for pi in range(n_prog):
+            rng = random.Random(1000 * seed + pi)
+            src, expected = sigassign_program(rng, 3 + (pi % 9) if tier == "quick" else rng.randrange(1, 30))
+            path = os.path.join(d, "p.circom")
+            open(path, "w").write(src)
+            sar = os.path.join(d, "p.sarif")
+            if os.path.exists(sar):
+                os.unlink(sar)
+            rc, out, err = run_cli(exe, ["--sarif-file", sar, path], d)
+            evals += 1
+            if rc is None or rc not in (0, 1) or "panicked" in err or not os.path.exists(sar):
+                add(f"prog{pi}:run", {"program": pi, "source": src[:1500]}, f"program {pi}: the tool aborted, hung or wrote no SARIF file (exit {rc}): {err[-200:]}")
+                continue
+            try:
+                results = json.load(open(sar))["runs"][0]["results"]
+            except Exception as e:
+                add(f"prog{pi}:sarif", {"program": pi}, f"program {pi}: unreadable SARIF output ({e})")
+                continue
+            if any(r.get("ruleId", "").startswith("P") for r in results):
+                raise RuntimeError("generator produced a program the tool rejects: " + src[:400])
+            got = {}
+            for r in results:
+                if r.get("ruleId") in ("CS0005", "CS0013") and r.get("locations"):
+                    ln = r["locations"][0]["physicalLocation"]["region"].get("startLine")
+                    got.setdefault(ln, []).append((r["ruleId"], sorted(l["physicalLocation"]["region"].get("startLine") for l in r.get("relatedLocations", []))))
+            srcl = src.split("\n")
+            for ln in sorted(set(expected) | set(got)):
+                nontrivial += 1
+                want = expected.get(ln, [0, None])
+                have = got.get(ln, [])
+                text = srcl[ln - 1].strip() if ln and 0 < ln <= len(srcl) else "?"
+                if len(have) != want[0]:
+                    add(f"count:{'missing' if len(have) < want[0] else 'extra'}", {"program": pi, "line": ln, "statement": text, "source": src[:1500]},
+                        f"program {pi}, line {ln} `{text}`: {len(have)} finding(s) about a signal assignment (CS0005/CS0013), {want[0]} `<--`/`-->` statement(s) there")
+                elif want[1] is not None:
+                    for (code, rel) in have:
+                        if code == "CS0005" and rel != want[1]:
+                            add("related", {"program": pi, "line": ln, "statement": text, "source": src[:1500]},
+                                f"program {pi}, line {ln} `{text}`: the finding lists the constraints on lines {rel}, the signal is mentioned by the constraints on lines {want[1]}")
+            if len(samples) < 5 and pi % 3 == 0:
+                samples.append({"program": pi, "statements": len(expected), "findings": {str(k): v for k, v in sorted(got.items())}})
+    finally:
+        shutil.rmtree(d, ignore_errors=True)
+    return {"unit": "e2e-sigassign", "evaluations": evals, "distinct_nontrivial": nontrivial, "exhaustive": False,
+            "rule": "the real CLI on generated templates (13 statement shapes: scalar, quadratic, `-->`, array element in for/while loops, matrix element under a branch, component and component-array inputs, declaration with initialisation, two statements on a line, both branches, anonymous component with a named `<--` input, non-signal statements as decoys; a custom template and a function next to it): per source line, the number of CS0005/CS0013 findings anchored there equals the number of `<--`/`-->` statements on it, none anywhere else; for scalar signals a CS0005 finding's related locations are exactly the lines of the `===` constraints mentioning that signal (a signal with a longer name is the decoy)",
+            "bound": f"{n_prog} generated programs, up to {12 if tier == 'quick' else 30} shapes each (seeded)", "samples": samples, "violations": viol}
+
+
 def main():
     suite, tier, seed = sys.argv[1], (sys.argv[2] if len(sys.argv) > 2 else "quick"), int(sys.argv[3]) if len(sys.argv) > 3 else 0
     try:
@@ -995,7 +1171,7 @@ def main():
     except Exception as e:
         print(json.dumps({"error": str(e)}))
         return
-    r = {"tuples": suite_tuples, "output": suite_output, "values": suite_values, "curves": suite_curves, "includes": suite_includes, "totality": suite_totality, "positions": suite_positions}[suite](exe, tier, seed)
+    r = {"tuples": suite_tuples, "output": suite_output, "values": suite_values, "curves": suite_curves, "includes": suite_includes, "totality": suite_totality, "positions": suite_positions, "sigassign": suite_sigassign}[suite](exe, tier, seed)
     print(json.dumps(r))
 
 if __name__ == "__main__":
